@@ -285,7 +285,10 @@ pub fn spell_comp(c: &Comp, rng: &mut Rng, st: &Style, extended: bool) -> String
     for m in ms { s.push_str(&m); }
     if c.braces {
         // a multi-word name may wrap over a line break (read as one space)
-        if st.wrap && c.name.contains(' ') && rng.chance(1, 3) { s.push_str(&c.name.replacen(' ', "\n", 1)); } else { s.push_str(&c.name); }
+        // (or carry a block comment between two of its words, or a wrap after a trailing blank: read as one space)
+        if st.wrap && c.name.contains(' ') && rng.chance(1, 3) { s.push_str(&c.name.replacen(' ', if rng.chance(1, 3) { " \n" } else { "\n" }, 1)); }
+        else if st.comments && c.name.contains(' ') && rng.chance(1, 3) { s.push_str(&c.name.replacen(' ', rng.pick_str(&[" [- c -] ", "[- c -] ", " [-é-]"]), 1)); }
+        else { s.push_str(&c.name); }
         if let Some(a) = &c.alias { s.push_str(sp(rng, st)); s.push('|'); s.push_str(sp(rng, st)); s.push_str(a); }
         if !c.name.is_empty() { s.push_str(sp(rng, st)); }
         s.push('{');
@@ -316,7 +319,8 @@ pub fn spell(r: &WfRecipe, st: &Style) -> String {
         }
         match b {
             Block::Meta(k, v) => out.push_str(&format!(">>{}{k}{}:{}{v}{}", sp(&mut rng, st), sp(&mut rng, st), sp(&mut rng, st), sp(&mut rng, st))),
-            Block::Section(n) => match n { Some(n) => out.push_str(&format!("={} {n} {}", if rng.chance(1, 2) { "=" } else { "" }, rng.pick_str(&["", "=", "=="]))), None => out.push_str(rng.pick_str(&["=", "==", "= ="])) },
+            // the fences may be glued to the name (`==Dough==`); a name that ends in a digit or letter is followed by `=` directly
+            Block::Section(n) => match n { Some(n) => if rng.chance(1, 3) { out.push_str(&format!("{}{n}{}", rng.pick_str(&["=", "=="]), rng.pick_str(&["", "=", "=="]))) } else { out.push_str(&format!("={} {n} {}", if rng.chance(1, 2) { "=" } else { "" }, rng.pick_str(&["", "=", "=="]))) }, None => out.push_str(rng.pick_str(&["=", "==", "= ="])) },
             Block::Text(ps) => { for (i, p) in ps.iter().enumerate() { if i > 0 { out.push('\n'); } out.push_str("> "); out.push_str(p); } }
             Block::Components(cs) => {
                 // a `>>` line is a block of its own: the blank lines around the mode switches are optional
